@@ -324,7 +324,7 @@ def build_c04(events, shapes, default_skip=None, want_mode=None, rng=None, strin
 
 
 # ------------------------------------------------------------------ C09
-FAULTS = ['wrong-output', 'exception', 'called-exception', 'helper-long', 'helper-short', 'compile', 'badrepr',
+FAULTS = ['wrong-output', 'exception', 'called-exception', 'helper-long', 'helper-short', 'compile', 'compile-late', 'badrepr',
           'badrepr-stdout', 'bad-directive', 'bad-directive-inline']
 
 
@@ -389,6 +389,16 @@ def build_c09(fault, pos, pre_want, multi, on_error='return', verbose=0, helper_
         g = gd.Group('compileerr', k)
         kind = 'compile'
         exc_type = 'SyntaxError'
+    elif fault == 'compile-late':
+        # the offending statement is NOT the first line of its part: two want-less statements precede it
+        groups.append(gd.Group('assign', k))
+        k += 1
+        groups.append(gd.Group('multi', k))
+        k += 1
+        fk = k
+        g = gd.Group('compileerr', k)
+        kind = 'compile'
+        exc_type = 'SyntaxError'
     elif fault == 'badrepr':
         g = gd.Group('badrepr', k)
         g.want = 'something'
@@ -419,11 +429,23 @@ def build_c09(fault, pos, pre_want, multi, on_error='return', verbose=0, helper_
     T = list(ran)
     if kind in ('gotwant', 'exception', 'repr'):
         T.append(fk)
-    if fault == 'bad-directive':
-        pass
+    if fault == 'compile-late':
+        # a part that does not compile runs nothing: only the statements up to the last want before it ran
+        gi = groups.index(g)
+        lastw = max([j for j in range(gi) if groups[j].kind != 'block' and groups[j].want is not None] or [-1])
+        T = [x.k for x in groups[:lastw + 1] if x.kind != 'block' and 'def helper' not in x.lines[0]]
     expect = {'pfs': '010', 'kind': kind, 'T': T, 'exc_type': exc_type, 'render': True,
               'fail_first_line': g.lines[0] if failing_line is None else None}
-    return {'text': gd.render(groups), 'run': {'on_error': on_error, 'verbose': verbose}, 'expect': expect,
+    text = gd.render(groups)
+    # the file line the report must name (the doctest starts on file line 1): the first line of the
+    # offending want for a got/want mismatch, otherwise the doctest line that raised / called failing code
+    tl = text.split('\n')
+    if kind in ('gotwant', 'exception', 'compile', 'repr'):
+        first_src = g.src_lines()[0]
+        idx = [i for i, l in enumerate(tl) if l == first_src or l.startswith(first_src + '  #')]
+        if len(idx) == 1:
+            expect['fail_lineno'] = 1 + idx[0] + (len(g.src_lines()) if kind == 'gotwant' else 0)
+    return {'text': text, 'run': {'on_error': on_error, 'verbose': verbose}, 'expect': expect,
             'desc': {'fault': fault, 'pos': pos, 'pre_want': pre_want, 'multi': multi, 'verbose': verbose,
                      'helper_extra': helper_extra, 'own_want': own_want},
             'groups': groups}
